@@ -38,11 +38,11 @@ def gen_cases(tier, seed):
     rng = random.Random(171717 + seed)
     cases = []
     grids = [(1, 1), (2, 1), (1, 2), (2, 2), (3, 1), (1, 3), (3, 2), (2, 3)]
-    for k in range(24 if tier == "quick" else 640):
+    for k in range(24 if tier == "quick" else 3000):
         cases.append({"kind": "diag", "npts": [rng.randint(5, 8), rng.randint(5, 8), rng.randint(7, 9), rng.randint(6, 9)], "nprocs": list(grids[k % len(grids)]),
                       "saveStep": rng.randint(1, 4), "dt": rng.choice([1, 2, 3]), "sched": rng.randrange(1 << 30), "seed": rng.randrange(1 << 30), "cost": 100})
     # "in every layout": all 24 orderings of a 4-D grid (not only the three shipped ones)
-    for k in range(4 if tier == "quick" else 48):
+    for k in range(4 if tier == "quick" else 200):
         cases.append({"kind": "anylayout", "npts": [rng.randint(4, 7) for _ in range(4)], "nprocs": list([(1, 1), (2, 1), (2, 2), (1, 3), (3, 2), (2, 3)][k % 6]),
                       "seed": rng.randrange(1 << 30), "cost": 150})
     return cases
